@@ -120,6 +120,14 @@ def generate(rng, tier, index):
     cfg = DW.gen_config(rng, model='single', real_ok=False)
     cfg.pop('cache', None); cfg.pop('hash_s', None)
     cfg['bcs'] = {}
+    if rng.random() < 0.5:
+        # temperature varying along the mesh (and in time): the cache must distinguish nodes of equal composition at different temperature
+        T0 = cfg['T']['T'] if cfg['T']['kind'] == 'const' else cfg['T']['temps'][0]
+        cfg['T'] = {'kind': 'func', 'times': [0.0, 1.0], 'temps': [T0, T0 + rng.choice([0, -50, 30])], 'time_scale': True, 'grad': rng.choice([20.0, -40.0, 80.0]) / cfg['L']}
+        if rng.random() < 0.5:
+            # plateaus: many nodes share a composition, so only the temperature tells them apart
+            for el in cfg['profiles']:
+                cfg['profiles'][el]['kind'] = 'step'
     return {'kind': 'diffusion_cache', 'cfg': cfg, 'ops': DW.gen_ops(rng)}
 
 
